@@ -286,6 +286,8 @@ fn run(rp: &Rp) -> i32 {
         }
         "sim" => replay_sim(rp),
         "std_struct" => replay_std_struct(rp),
+        "purity" | "purity_clone" => replay_purity(rp),
+        "sim_meta" => replay_sim_meta(rp),
         "reject" | "reject_inf" | "reject_stream" | "reject_replace" => replay_reject(rp, &hay),
         "ac_ismatch" => {
             let (s, e) = (rp.usize("s"), rp.usize("e"));
@@ -307,6 +309,112 @@ fn run(rp: &Rp) -> i32 {
             2
         }
     }
+}
+
+/// C17: the same sequence of searches on the natively built low-level
+/// automaton (the top-level wrapper would mask start-kind effects): request B
+/// on a fresh value, an unrelated request A, request B again, and B on a clone
+/// of the used value.
+fn replay_purity(rp: &Rp) -> i32 {
+    use aho_corasick::automaton::Automaton;
+    fn key(r: Result<Option<Match>, aho_corasick::MatchError>) -> (bool, Option<M>) {
+        match r {
+            Ok(m) => (true, tup(m)),
+            Err(_) => (false, None),
+        }
+    }
+    fn run<A: Automaton + Clone>(aut: &A, rp: &Rp) -> i32 {
+        let g = |k: &str| rp.kv.get(k).cloned();
+        let (h1, h2) = match (g("h1"), g("h2")) {
+            (Some(a), Some(b)) => (unhex(&a), unhex(&b)),
+            _ => {
+                let h = unhex(&g("h").unwrap_or_default());
+                (h.clone(), h)
+            }
+        };
+        let us = |k: &str, d: usize| rp.kv.get(k).map(|v| v.parse::<usize>().unwrap()).unwrap_or(d);
+        let (s1, e1, s2, e2) = (us("s1", 0), us("e1", h1.len()), us("s2", 0), us("e2", h2.len()));
+        let an = |k: &str| if rp.kv.get(k).map_or(false, |v| v == "1") { Anchored::Yes } else { Anchored::No };
+        let (a1, a2) = (an("a1"), if rp.kv.contains_key("a2") { an("a2") } else { an("a") });
+        let fresh = key(aut.try_find(&Input::new(&h2[..]).span(s2..e2).anchored(a2)));
+        let _ = aut.try_find(&Input::new(&h1[..]).span(s1..e1).anchored(a1));
+        let after = key(aut.try_find(&Input::new(&h2[..]).span(s2..e2).anchored(a2)));
+        let cl = aut.clone();
+        let on_clone = key(cl.try_find(&Input::new(&h2[..]).span(s2..e2).anchored(a2)));
+        report("request B fresh / after request A / on a clone of the used value", &(after, on_clone), &(fresh, fresh), fresh != after || fresh != on_clone)
+    }
+    let (mk, ci) = (rp.case.mk, rp.case.ci);
+    match rp.get("kind") {
+        "dfa" => {
+            let mut b = aho_corasick::dfa::DFA::builder();
+            b.match_kind(crate::mk_of(mk)).ascii_case_insensitive(ci).prefilter(rp.case.pf).byte_classes(rp.case.bc).start_kind(crate::sk_of(rp.case.sk));
+            run(&b.build(&rp.pats).expect("build"), rp)
+        }
+        "cnfa" => {
+            let mut b = aho_corasick::nfa::contiguous::NFA::builder();
+            b.match_kind(crate::mk_of(mk)).ascii_case_insensitive(ci).prefilter(rp.case.pf).byte_classes(rp.case.bc);
+            run(&b.build(&rp.pats).expect("build"), rp)
+        }
+        _ => {
+            let mut b = aho_corasick::nfa::noncontiguous::NFA::builder();
+            b.match_kind(crate::mk_of(mk)).ascii_case_insensitive(ci).prefilter(rp.case.pf);
+            run(&b.build(&rp.pats).expect("build"), rp)
+        }
+    }
+}
+
+/// Native form of `sim_meta`: start states, `start_state` verdicts, dead
+/// state and metadata of the three natively built automata.
+fn replay_sim_meta(rp: &Rp) -> i32 {
+    use aho_corasick::automaton::{Automaton, StateID};
+    let b = crate::build(&rp.case);
+    let n = aho_corasick::verif::ac::as_nnfa(&b.ac_n).unwrap();
+    let c = aho_corasick::verif::ac::as_cnfa(&b.ac_c).unwrap();
+    let d = aho_corasick::verif::ac::as_dfa(&b.ac_d).unwrap();
+    let mut bad: Vec<String> = vec![];
+    for (an, a) in [(false, Anchored::No), (true, Anchored::Yes)] {
+        let supported = rp.case.sk == 0 || (rp.case.sk == 1 && !an) || (rp.case.sk == 2 && an);
+        let rd = d.start_state(a);
+        if rd.is_ok() != supported {
+            bad.push(format!("DFA start_state(anchored={}) is_ok={} but the start kind supports it: {}", an, rd.is_ok(), supported));
+        }
+        let (sn, sc) = (n.start_state(a).unwrap(), c.start_state(a).unwrap());
+        if n.is_match(sn) != c.is_match(sc) || n.is_special(sn) != c.is_special(sc) {
+            bad.push(format!("start states (anchored={}) disagree between the NFAs", an));
+        }
+        if let Ok(sd) = rd {
+            if n.is_match(sn) != d.is_match(sd) || n.is_special(sn) != d.is_special(sd) {
+                bad.push(format!("start states (anchored={}) disagree between nnfa and dfa", an));
+            }
+        }
+        let dead = StateID::new_unchecked(0);
+        for byte in 0..=255u8 {
+            if c.next_state(a, dead, byte) != dead || d.next_state(a, dead, byte) != dead {
+                bad.push(format!("dead state not absorbing on byte {:02x}", byte));
+                break;
+            }
+        }
+    }
+    let np = rp.pats.len();
+    if n.patterns_len() != np || c.patterns_len() != np || d.patterns_len() != np {
+        bad.push("patterns_len differs".into());
+    }
+    for (i, p) in rp.pats.iter().enumerate() {
+        let pid = aho_corasick::PatternID::new_unchecked(i);
+        if n.pattern_len(pid) != p.len() || c.pattern_len(pid) != p.len() || d.pattern_len(pid) != p.len() {
+            bad.push(format!("pattern_len({}) differs", i));
+        }
+    }
+    if np > 0 {
+        let mn = rp.pats.iter().map(|p| p.len()).min().unwrap();
+        let mx = rp.pats.iter().map(|p| p.len()).max().unwrap();
+        for (nm, a, bb) in [("nnfa", n.min_pattern_len(), n.max_pattern_len()), ("cnfa", c.min_pattern_len(), c.max_pattern_len()), ("dfa", d.min_pattern_len(), d.max_pattern_len())] {
+            if a != mn || bb != mx {
+                bad.push(format!("{} min/max pattern length differs", nm));
+            }
+        }
+    }
+    report("start states / start_state verdicts / dead state / metadata", &bad, &"no difference", !bad.is_empty())
 }
 
 /// Native, exhaustive form of the textbook-automaton check: every state of
@@ -366,7 +474,11 @@ fn replay_reject(rp: &Rp, hay: &[u8]) -> i32 {
     let (sk, mk) = (rp.case.sk, rp.case.mk);
     let has_empty = rp.pats.iter().any(|p| p.is_empty());
     let ac = rp.ac();
-    let inp = || Input::new(hay).anchored(if an { Anchored::Yes } else { Anchored::No });
+    let (s, e) = match (rp.kv.get("s"), rp.kv.get("e")) {
+        (Some(s), Some(e)) => (s.parse::<usize>().unwrap(), e.parse::<usize>().unwrap()),
+        _ => (0, hay.len()),
+    };
+    let inp = || Input::new(hay).span(s..e).anchored(if an { Anchored::Yes } else { Anchored::No });
     let tmpl = rp.get("template").to_string();
     let api = rp.kv.get("api").cloned().unwrap_or_default();
     let a = (sk == 1 && an) || (sk == 2 && !an);
